@@ -371,7 +371,12 @@ def sub(x, y, out=None, out_like=None, sizing='optimal', method='raw', **kwargs)
         precision_cast = (lambda m: np.array(m, dtype=object)) if n_frac >= _n_word_max else (lambda m: m)
         raw_cast = _raw_cast(x, y, max(x.n_word + n_frac - x.n_frac, y.n_word + n_frac - y.n_frac) + 2)
         exact = _needs_exact_sum(x, y, n_frac)
-        return np.asarray(_rescale(raw_cast(x.val), n_frac - x.n_frac, n_frac, exact) - _rescale(raw_cast(y.val), n_frac - y.n_frac, n_frac, exact))
+        x_raw = _rescale(raw_cast(x.val), n_frac - x.n_frac, n_frac, exact)
+        y_raw = _rescale(raw_cast(y.val), n_frac - y.n_frac, n_frac, exact)
+        if getattr(x_raw, 'dtype', None) == np.uint64 and getattr(y_raw, 'dtype', None) == np.uint64:
+            # the difference of two unsigned raw values can be negative (both are below 2**62 here: no cast to Python integers was needed)
+            x_raw, y_raw = x_raw.astype(np.int64), y_raw.astype(np.int64)
+        return np.asarray(x_raw - y_raw)
 
     if not isinstance(x, Fxp):
         x = Fxp(x)
